@@ -10,6 +10,7 @@ package main
 
 import (
 	"fmt"
+	"math"
 	"sort"
 	"strings"
 
@@ -25,6 +26,9 @@ type loadOp struct {
 	name string
 	cfg  func() *tpb.Configuration // nil result = nil config
 	rev  int                       // -1 lower, 0 equal, +1 higher than current
+	// abs: the load carries this absolute revision instead of one relative to the current
+	abs    bool
+	absRev int64
 }
 
 func request(content string) *gpb.SubscribeRequest {
@@ -129,6 +133,8 @@ type sys struct {
 	// messages); last is that object
 	share bool
 	last  *tpb.Configuration
+	// absolute: the alphabet carries absolute revisions, so the current revision is part of the state
+	absolute bool
 }
 
 func newSys(ops []loadOp, withBase, share bool) *sys {
@@ -178,6 +184,13 @@ func (s *sys) Apply(i int) []seqmc.Violation {
 	cfg := o.cfg()
 	if cfg != nil {
 		cfg.Revision = s.rev + int64(o.rev)
+		if o.abs {
+			cfg.Revision = o.absRev
+		}
+	}
+	higher := o.rev > 0
+	if o.abs {
+		higher = o.absRev > s.rev
 	}
 	if s.share && s.last != nil && cfg != nil {
 		for n, t := range cfg.Target {
@@ -194,9 +207,9 @@ func (s *sys) Apply(i int) []seqmc.Violation {
 	before := s.c.Current()
 	s.calls = nil
 	err := s.c.Load(cfg)
-	wantOK := valid(cfg) && (!s.loaded || o.rev > 0)
+	wantOK := valid(cfg) && (!s.loaded || higher)
 	if (err == nil) != wantOK {
-		return vio("load-result", "Load(%s) returned %v; valid=%v, revision strictly greater=%v, first load=%v", o.name, err, valid(cfg), o.rev > 0, !s.loaded)
+		return vio("load-result", "Load(%s) returned %v; valid=%v, revision strictly greater than the current %d=%v, first load=%v", o.name, err, valid(cfg), s.rev, higher, !s.loaded)
 	}
 	after := s.c.Current()
 	if err != nil {
@@ -305,7 +318,9 @@ func (s *sys) Key() string {
 		sort.Strings(rj)
 		return fmt.Sprintf("nil|%v", rj)
 	}
-	c.Revision = 0
+	if !s.absolute {
+		c.Revision = 0
+	}
 	b, _ := proto.MarshalOptions{Deterministic: true}.Marshal(c)
 	var r []string
 	for _, n := range keys(s.replica) {
@@ -326,7 +341,43 @@ var fullMemory bool
 type harness struct{}
 
 func (harness) Property() string { return "C17" }
+
+// extremes: two shapes x revisions across the whole int64 range (the gate is
+// "strictly greater", for every pair of values - differences overflow)
+func extremes() []loadOp {
+	var ops []loadOp
+	revs := []int64{math.MinInt64, -7500000000000000000, -1, 0, 1, 1790000000000000000, math.MaxInt64}
+	shapes := []struct {
+		name string
+		f    func() *tpb.Configuration
+	}{
+		{"one target", func() *tpb.Configuration {
+			return &tpb.Configuration{Request: map[string]*gpb.SubscribeRequest{"r1": request("A")}, Target: map[string]*tpb.Target{"t1": {Addresses: []string{"x"}, Request: "r1"}}}
+		}},
+		{"two targets", func() *tpb.Configuration {
+			return &tpb.Configuration{Request: map[string]*gpb.SubscribeRequest{"r1": request("A")}, Target: map[string]*tpb.Target{"t1": {Addresses: []string{"y"}, Request: "r1"}, "t2": {Addresses: []string{"x"}, Request: "r1"}}}
+		}},
+	}
+	for _, sh := range shapes {
+		for _, r := range revs {
+			sh, r := sh, r
+			ops = append(ops, loadOp{name: fmt.Sprintf("%s revision=%d", sh.name, r), cfg: sh.f, abs: true, absRev: r})
+		}
+	}
+	return ops
+}
+
 func (harness) Specs(tier string) []seqmc.Spec {
+	ex := extremes()
+	var exNames []string
+	for _, o := range ex {
+		exNames = append(exNames, o.name)
+	}
+	exSpec := seqmc.Spec{Name: "revisions across the whole int64 range (closure)", Ops: exNames, Depth: 30, New: func() seqmc.Sys {
+		s := newSys(ex, false, false)
+		s.absolute = true
+		return s
+	}}
 	mk := func(label string, ops []loadOp, full bool) []seqmc.Spec {
 		var names []string
 		for _, o := range ops {
@@ -342,9 +393,9 @@ func (harness) Specs(tier string) []seqmc.Spec {
 	if tier == "thorough" {
 		// every (validity, revision relation) class of rejected loads remembered on
 		// the 2-target universe; the 3-target universe with the quick memory
-		return append(mk("2 targets, full rejected-load memory", universe(false), true), mk("3 targets", universe(true), false)...)
+		return append(append(mk("2 targets, full rejected-load memory", universe(false), true), mk("3 targets", universe(true), false)...), exSpec)
 	}
-	return mk("2 targets", universe(false), false)
+	return append(mk("2 targets", universe(false), false), exSpec)
 }
 
 func main() { seqmc.Main(harness{}) }
